@@ -1163,6 +1163,11 @@ pub fn mutation_cases(r: &mut Rng, id: &str, a: &Iface, per_kind: usize, all_tru
             parse_case("mut-mix", &format!("{id}-mix{k}"), &render_tokens(&t), None, stats);
         }
     }
+    // near misses aimed at the list and type syntax: a comma where no element follows or precedes, a doubled
+    // comma, a doubled `?`, a missing `:` or `->`, a doubled parenthesis
+    if per_kind > 0 {
+        near_miss_cases(r, id, &toks, false, stats);
+    }
     if all_truncations {
         for (k, cut) in char_boundaries(&text).into_iter().enumerate() {
             if cut == text.len() {
@@ -1175,6 +1180,53 @@ pub fn mutation_cases(r: &mut Rng, id: &str, a: &Iface, per_kind: usize, all_tru
             let bs = char_boundaries(&text);
             let cut = bs[r.below(bs.len() as u64 - 1) as usize];
             parse_case("mut-trunc", &format!("{id}-cut{k}"), &text[..cut], None, stats);
+        }
+    }
+}
+
+/// Targeted near misses of a valid token list.  `all` = at every site, else at one random site per kind.
+pub fn near_miss_cases(r: &mut Rng, id: &str, toks: &[Tok], all: bool, stats: &mut Stats) {
+    let mk = |k: &str, s: &str| Tok { k: k.into(), s: s.into(), c: class_of(s), sp: true, own: false };
+    let is = |t: &Tok, p: &str| t.k == "P" && t.s == p;
+    // (kind, sites, edit)
+    let n = toks.len();
+    let sites = |f: &dyn Fn(usize) -> bool| -> Vec<usize> { (0..n).filter(|i| f(*i)).collect() };
+    let kinds: Vec<(&str, Vec<usize>)> = vec![
+        ("trailing-comma", sites(&|i| is(&toks[i], ")") && i > 0 && !is(&toks[i - 1], "("))),
+        ("leading-comma", sites(&|i| is(&toks[i], "(") && i + 1 < n && !is(&toks[i + 1], ")"))),
+        ("lone-comma", sites(&|i| is(&toks[i], "(") && i + 1 < n && is(&toks[i + 1], ")"))),
+        ("double-comma", sites(&|i| is(&toks[i], ","))),
+        ("double-question", sites(&|i| is(&toks[i], "?"))),
+        ("no-colon", sites(&|i| is(&toks[i], ":"))),
+        ("no-arrow", sites(&|i| is(&toks[i], "->"))),
+        ("double-open", sites(&|i| is(&toks[i], "("))),
+        ("double-close", sites(&|i| is(&toks[i], ")"))),
+        ("colon-for-comma", sites(&|i| is(&toks[i], ","))),
+    ];
+    for (kind, ss) in kinds {
+        if ss.is_empty() {
+            continue;
+        }
+        let chosen: Vec<usize> = if all { ss } else { vec![ss[r.below(ss.len() as u64) as usize]] };
+        for i in chosen {
+            let mut t = toks.to_vec();
+            match kind {
+                "trailing-comma" => t.insert(i, mk("P", ",")),
+                "leading-comma" | "lone-comma" => t.insert(i + 1, mk("P", ",")),
+                "double-comma" => t.insert(i, mk("P", ",")),
+                "double-question" => {
+                    let mut q = mk("P", "?");
+                    q.sp = false;
+                    t.insert(i + 1, q)
+                }
+                "no-colon" | "no-arrow" => {
+                    t.remove(i);
+                }
+                "double-open" => t.insert(i, mk("P", "(")),
+                "double-close" => t.insert(i, mk("P", ")")),
+                _ => t[i] = mk("P", ":"),
+            }
+            parse_case(&format!("near-{kind}"), &format!("{id}-{kind}{i}"), &render_tokens(&t), None, stats);
         }
     }
 }
@@ -1241,6 +1293,7 @@ pub fn run_parse(r: &mut Rng, asts: &[Iface], n: u64, trunc_all: u64, soup: u64,
                     parse_case("all-swap", &format!("m{i}-w{j}"), &render_tokens(&t), None, stats);
                 }
             }
+            near_miss_cases(r, &format!("m{i}"), &toks, true, stats);
         }
     }
     // grammar-driven random descriptions with random layout
